@@ -1,8 +1,9 @@
 import RulesModel.Expected.LexTable
 import RulesModel.Generated.Facts
-/-! Tie T4 (observers): the types named in type assertions / type switches of hand-written code, and the absence of
-`reflect`, are what the value quotient (DESIGN §1 F1) was built for – so "all Go values" in the theorems means all. -/
+/-! Tie T4 (observers): every type named in a type assertion / type switch of the hand-written code that the API can reach
+is one the value quotient (DESIGN §1 F1) was built for, and `reflect` is not used – so "all Go values" in the theorems means
+all. (Inclusion, not equality: an observer that disappears makes the engine distinguish *less*, which the quotient covers.) -/
 namespace Rules.Tie
-theorem observers_tie : Generated.observers = Expected.observers := by decide +kernel
+theorem observers_tie : Generated.observers.all (fun t => Expected.observers.contains t) = true := by decide +kernel
 theorem reflectUses_ok : Generated.reflectUses = [] := by decide +kernel
 end Rules.Tie
